@@ -8,7 +8,7 @@
    distinct field and variant names); dyn_ser: to_stdvec_dyn; enc: the static encoder of
    C01/C02.  The host's float conversions are parameters; the only fact used about them is
    that widening an f32 and narrowing it back is the identity. *)
-From PV Require Import Base MachineInt VarintParams GenLoops DataModel Schema SchemaConv Conform Dyn JsonOf Ser VarintCore DynAgree DynAgreeDe.
+From PV Require Import Base MachineInt VarintParams GenLoops DataModel Schema SchemaConv Conform Dyn JsonOf Ser VarintCore DynAgree DynAgreeDe DynArmDecl GenDynArms DynArms DynArmFacts.
 Open Scope N_scope.
 
 (* encoding the serde_json form of a value under its schema yields exactly the bytes the static
@@ -32,6 +32,45 @@ Proof. exact de_agree_enc. Qed.
 Theorem C17_private_copies_agree : dyn_writers = core_writers.
 Proof. exact dyn_writers_std. Qed.
 
+(* the model's scalar encoder is what the arms of ser_named_type in postcard-dyn/src/ser.rs say:
+   for each numeric / boolean kind, Dyn.ser_prim equals the interpretation of the arm the
+   translator read (accessor, try_from / from / `as f32` conversion, zig-zag width, emitter with
+   its varint_max type and varint function), for every serde_json integer, float, or other value *)
+Theorem C17_scalar_arms_are_the_source : forall int_to_f64 narrow p j, json_int_ok j ->
+  match ser_prim_via_arms int_to_f64 narrow p j with
+  | Some r => ser_prim int_to_f64 narrow p j = r
+  | None => True
+  end.
+Proof. exact ser_prim_is_source. Qed.
+
+(* ... and the translated table has an arm for each of the fourteen kinds *)
+Theorem C17_scalar_arms_cover : forall int_to_f64 narrow p,
+  match p with
+  | PBool | PI8 | PU8 | PI16 | PI32 | PI64 | PI128 | PU16 | PU32 | PU64 | PU128 | PUsize | PF32 | PF64 =>
+    ser_prim_via_arms int_to_f64 narrow p JNull <> None
+  | _ => True
+  end.
+Proof. exact arms_cover. Qed.
+
+(* the same for the decoder: for each numeric / boolean kind, Dyn.de_prim equals the
+   interpretation of the arm of `deserialize` in postcard-dyn/src/de.rs (what is taken from the
+   input, zig-zag width, i64 / u64 try_from with its error, from_le_bytes width, how the Value is
+   built), on every input *)
+Theorem C17_decoder_scalar_arms_are_the_source : forall widen p bs,
+  match de_prim_via_arms widen p bs with
+  | Some r => de_prim widen p bs = r
+  | None => True
+  end.
+Proof. exact de_prim_is_source. Qed.
+
+Theorem C17_decoder_scalar_arms_cover : forall widen p,
+  match p with
+  | PBool | PI8 | PU8 | PI16 | PI32 | PI64 | PI128 | PU16 | PU32 | PU64 | PU128 | PUsize | PF32 | PF64 =>
+    de_prim_via_arms widen p [] <> None
+  | _ => True
+  end.
+Proof. exact de_arms_cover. Qed.
+
 (* non-vacuity: enum E { A, B { x: u8, y: i16 } } inside Option inside Vec, with a float *)
 Example C17_example :
   let s := STuple [SSeq (SOption (SEnum [69] [([65], DUnit, []); ([66], DStruct, [([120], SPrim PU8); ([121], SPrim PI16)])])); SPrim PF32] in
@@ -45,3 +84,7 @@ Proof. repeat split; vm_compute; reflexivity. Qed.
 Print Assumptions C17_encode_agrees.
 Print Assumptions C17_decode_agrees.
 Print Assumptions C17_private_copies_agree.
+Print Assumptions C17_scalar_arms_are_the_source.
+Print Assumptions C17_scalar_arms_cover.
+Print Assumptions C17_decoder_scalar_arms_are_the_source.
+Print Assumptions C17_decoder_scalar_arms_cover.
